@@ -66,6 +66,19 @@ def build_item(bt, it, log):
         # every other algo answers with a numpy bool, which is what a comparison on prices or values returns (it is not a subclass of bool)
         import numpy as np
 
+        if it[3] is True and it[1] % 3 == 0:
+            # the mark sits on the class (the @run_always decorator applied to an Algo subclass, as the ClosePositionsAfterDates docstring
+            # suggests), the instance is built by a constructor that chains to Algo.__init__
+            def _init(self, log_, ident_, ret_):
+                bt.core.Algo.__init__(self)
+                self.log, self.ident, self.ret = log_, ident_, ret_
+
+            def _call(self, target):
+                self.log.append(self.ident)
+                return self.ret
+
+            cls = bt.algos.run_always(type("MarkedAlgo", (bt.core.Algo,), {"__init__": _init, "__call__": _call}))
+            return cls(log, it[1], it[2])
         return Spy(log, it[1], np.bool_(it[2]) if it[1] % 2 == 1 else it[2], it[3])
     if it[0] == "stack":
         return bt.core.AlgoStack(*[build_item(bt, x, log) for x in it[1]])
